@@ -269,6 +269,8 @@ pub struct Spec {
     pub has_ci: bool,
     pub has_io: bool,
     pub is_result: bool,
+    /// the macro recognises the return type as `Result` (false for the F7 witnesses: alias / core::result::Result)
+    pub recognised_result: bool,
 }
 
 pub fn parse_spec(s: &str) -> Spec {
@@ -292,6 +294,7 @@ pub fn parse_spec(s: &str) -> Spec {
         has_ci: p[8] == "1",
         has_io: p[9] == "1",
         is_result: p[7] == "1" || p.get(15).map(|x| *x == "1").unwrap_or(false),
+        recognised_result: p[7] == "1",
     }
 }
 
